@@ -398,6 +398,12 @@ func (s *Set) c04(w *simapi.Write, v *simapi.View) {
 				n, _ := interp.LivePods(v, s.ns, simapi.StrMap(stableSvc, "spec.selector"))
 				if n == 0 && len(tot) > 0 {
 					how := "forward"
+					if wl := s.workload(v); wl != nil && workloadImage(wl) == s.stableImg && s.targetImg == s.stableImg && s.isRealPartitionStyle() {
+						// the user reverted a partition-style workload after every pod had been updated: no pod of the
+						// stable revision is left, the Rollout takes the revert for one more release and pins the stable
+						// Service to the revision it is about to release
+						how = "revert-after-every-pod-was-updated"
+					}
 					for _, a := range s.R.UserActions {
 						if strings.HasPrefix(a, "jump:") {
 							how = "after-step-jump"
